@@ -29,7 +29,9 @@ namespace vh
 
   static std::string buildCase(Tok& t)
   {
-    bool hasSys = t.nat(), hasRx = t.nat(), ignoreUnused = t.nat(), reorder = t.nat();
+    bool hasSys = t.nat();
+    std::size_t hasRx = t.nat();  // 0: never set, 1: set, 2: set to a valid list and then to an empty one (same builder)
+    bool ignoreUnused = t.nat(), reorder = t.nat();
     std::size_t ng = t.nat();
     std::vector<micm::Species> gas;
     for (std::size_t i = 0; i < ng; ++i)
@@ -73,6 +75,8 @@ namespace vh
       b.SetSystem(micm::System(micm::SystemParameters{ .gas_phase_ = micm::Phase{ gas }, .phases_ = phases }));
     if (hasRx)
       b.SetReactions(procs);
+    if (hasRx == 2)
+      b.SetReactions({});
     b.SetIgnoreUnusedSpecies(ignoreUnused).SetReorderState(reorder);
     auto solver = b.Build();
     auto state = solver.GetState();
